@@ -128,18 +128,23 @@ Proof. destruct g; cbn; tauto. Qed.
 Lemma in_bools : forall b : bool, In b [false; true].
 Proof. destruct b; cbn; tauto. Qed.
 
+Lemma in_modes9 : forall m9, m9 < 2 ^ 9 -> In m9 modes9.
+Proof.
+  intros m9 Hm. apply in_range_from. rewrite N2Nat.id. change (2 ^ 9) with 512 in Hm. lia.
+Qed.
+Lemma in_masks6 : forall a6, a6 < 2 ^ 6 -> In a6 masks6.
+Proof.
+  intros a6 Ha. apply in_range_from. rewrite N2Nat.id. change (2 ^ 6) with 64 in Ha. lia.
+Qed.
+
 Lemma point_ok_all : forall g m9 d ro a6, m9 < 2 ^ 9 -> a6 < 2 ^ 6 -> point_ok g m9 d ro a6 = true.
 Proof.
   intros g m9 d ro a6 Hm Ha.
-  assert (Im : In m9 modes9).
-  { apply in_range_from. rewrite N2Nat.id. change (2 ^ 9) with 512 in Hm. lia. }
-  assert (Ia : In a6 masks6).
-  { apply in_range_from. rewrite N2Nat.id. change (2 ^ 6) with 64 in Ha. lia. }
   pose proof (proj1 (forallb_forall _ _) sweep_ok g (in_all_gclasses g)) as S1. cbv beta in S1.
-  pose proof (proj1 (forallb_forall _ _) S1 m9 Im) as S2. cbv beta in S2.
+  pose proof (proj1 (forallb_forall _ _) S1 m9 (in_modes9 m9 Hm)) as S2. cbv beta in S2.
   pose proof (proj1 (forallb_forall _ _) S2 d (in_bools d)) as S3. cbv beta in S3.
   pose proof (proj1 (forallb_forall _ _) S3 ro (in_bools ro)) as S4. cbv beta in S4.
-  exact (proj1 (forallb_forall _ _) S4 a6 Ia).
+  exact (proj1 (forallb_forall _ _) S4 a6 (in_masks6 a6 Ha)).
 Qed.
 
 Lemma point_ok_inputs : forall mode fuid fgid c access ro,
